@@ -202,7 +202,8 @@ def long_case(case, res):
     z = factory.make("BasebandSignal", x, rate_name="1MHz", start_name="iso", fc=400 * u.MHz)
     n = np.arange(N)[:, None]
     eps = float(np.finfo(dtype).eps)
-    for b in (24001, -17777, 0.5, N // 3 + 0.25):
+    # (600.004 / -1200.008: far from zero AND a few thousandths of a bin off a whole bin - not "close enough" to whole)
+    for b in (24001, -17777, 0.5, N // 3 + 0.25, 600.004, -1200.008, 3000.5 + 2 ** -12):
         q = (b * 1e6 / N) * u.Hz
         bex = F(float(q.value)) * N / 10 ** 6
         out = pb.freq_shift(z, q)
